@@ -24,6 +24,7 @@ import (
 	"github.com/plgd-dev/go-coap/v3/net/client"
 	"github.com/plgd-dev/go-coap/v3/net/responsewriter"
 	"github.com/plgd-dev/go-coap/v3/options"
+	"github.com/plgd-dev/go-coap/v3/options/config"
 	"github.com/plgd-dev/go-coap/v3/tcp"
 	tcpClient "github.com/plgd-dev/go-coap/v3/tcp/client"
 	"github.com/plgd-dev/go-coap/v3/udp"
@@ -48,6 +49,9 @@ type EndCfg struct {
 	MaxRetransmit int  `json:"maxRetransmit,omitempty"`
 	BwTimeoutMs   int  `json:"bwTimeoutMs,omitempty"`
 	Limit         int  `json:"limit,omitempty"` // parallel request limit (total and per endpoint); 0 = 16
+	// GoPool (datagram): every received message is processed on a goroutine of its own
+	// (WithProcessReceivedMessageFunc), so duplicates and blocks of one transfer run concurrently
+	GoPool bool `json:"goPool,omitempty"`
 }
 
 type Op struct {
@@ -417,7 +421,14 @@ func Run(t *testing.T, sc Scenario, track bool) (tr Trace) {
 			plink = memnet.NewPacketLink(lc)
 			mk := func(end *memnet.PacketEnd, c EndCfg, errs *endpoints.Errs, p *pool.Pool, side string) *udpClient.Conn {
 				var cc *udpClient.Conn
-				cc = endpoints.UDP(end, []udp.Option{
+				var extra []udp.Option
+				if c.GoPool {
+					extra = append(extra, options.WithProcessReceivedMessageFunc(config.ProcessReceivedMessageFunc[*udpClient.Conn](
+						func(req *pool.Message, cc *udpClient.Conn, h config.HandlerFunc[*udpClient.Conn]) {
+							go cc.ProcessReceivedMessageWithHandler(req, h)
+						})))
+				}
+				cc = endpoints.UDP(end, append([]udp.Option{
 					options.WithMessagePool(p), options.WithPeriodicRunner(tk.Runner()), options.WithErrors(errs.Add),
 					options.WithBlockwise(c.Blockwise, szx(c.SZX), time.Duration(def(c.BwTimeoutMs, 3000))*time.Millisecond),
 					options.WithMaxMessageSize(uint32(def(c.MaxMsg, 65536))), options.WithMTU(uint16(min(def(c.MaxMsg, 65536), 65000))),
@@ -427,7 +438,7 @@ func Run(t *testing.T, sc Scenario, track bool) (tr Trace) {
 					options.WithHandlerFunc(udpClient.HandlerFunc(func(w *responsewriter.ResponseWriter[*udpClient.Conn], r *pool.Message) {
 						serve(w.Conn(), w.SetResponse, r, side)
 					})),
-				}...)
+				}, extra...)...)
 				return cc
 			}
 			c1 := mk(plink.A, sc.Cli, &cliErrs, cliPool, "cli")
